@@ -39,32 +39,35 @@ type CallSpec struct { // per call-site overrides inside a function
 }
 
 type FuncContract struct {
-	Key       string // RelString form within the package, e.g. "(*T).Name", "Name", "(*T).Name$1"
-	PkgPath   string
-	Header    string
-	File      string
-	Line      int
-	Props     []string
-	Requires  []*Clause
-	Ensures   []*Clause
-	Modifies  []*Clause
-	HasMod    bool
-	Loops     map[int]*LoopSpec
-	Inline    bool // callers execute the body in place
-	Trusted   bool // body not checked (assumed contract)
-	Pure      bool // result is an uninterpreted function of the arguments; no effects
-	Opaque    bool // fresh result, no effects
-	NonNil    bool // result (first) is non-nil
-	NoPanic   bool // generate nopanic obligations (default true for checked functions)
-	MayPanic  bool
-	Params    []string // for extern contracts: names for receiver+params
-	Asserts   map[string][]*Clause
-	CallSpecs []*CallSpec
-	Used      bool
-	NoCalls   bool
-	SQLTexts  []string
-	Allow     []string
-	SchemaOf  string
+	Key          string // RelString form within the package, e.g. "(*T).Name", "Name", "(*T).Name$1"
+	PkgPath      string
+	Header       string
+	File         string
+	Line         int
+	Props        []string
+	Requires     []*Clause
+	Ensures      []*Clause
+	Modifies     []*Clause
+	HasMod       bool
+	Loops        map[int]*LoopSpec
+	Inline       bool // callers execute the body in place
+	Trusted      bool // body not checked (assumed contract)
+	Pure         bool // result is an uninterpreted function of the arguments; no effects
+	Opaque       bool // fresh result, no effects
+	NonNil       bool // result (first) is non-nil
+	NoPanic      bool // generate nopanic obligations (default true for checked functions)
+	MayPanic     bool
+	Params       []string // for extern contracts: names for receiver+params
+	Asserts      map[string][]*Clause
+	CallSpecs    []*CallSpec
+	Used         bool
+	NoCalls      bool
+	SQLTexts     []string
+	Splits       []*SplitSpec   // case splits applied to every proof obligation of the function
+	Definitional bool           // postconditions that pin the fresh result are applied as definitions (term rewriting) at call sites
+	GhostUpd     []*GhostUpdate // ghost code executed at every return, before the postconditions
+	Allow        []string
+	SchemaOf     string
 }
 
 type SpecFn struct {
@@ -113,6 +116,20 @@ type Schema struct {
 	Zero     bool
 	File     string
 	Line     int
+}
+
+// SplitSpec: "split <expr over the inputs> in lo..hi": every obligation is proved separately for expr == lo, ..., expr == hi
+// and for expr outside the range (so the split is exhaustive by construction).
+type SplitSpec struct {
+	Expr   *Clause
+	Lo, Hi int
+}
+
+// GhostUpdate: "set loc := expr" or "choose loc with pred" (assign-such-that; pred may mention the new value of loc).
+type GhostUpdate struct {
+	Choose bool
+	Loc    *Clause
+	Expr   *Clause
 }
 
 type GhostField struct {
@@ -198,7 +215,7 @@ func parseParams(s string) []SpecParam {
 	return out
 }
 
-var clauseKw = map[string]bool{"sqltext": true, "except": true, "allowcalls": true, "nocalls": true, "ensureserror": true, "ensureszero": true, "requires": true, "ensures": true, "modifies": true, "loop": true, "inline": true,
+var clauseKw = map[string]bool{"split": true, "definitional": true, "set": true, "choose": true, "sqltext": true, "except": true, "allowcalls": true, "nocalls": true, "ensureserror": true, "ensureszero": true, "requires": true, "ensures": true, "modifies": true, "loop": true, "inline": true,
 	"trusted": true, "pure": true, "opaque": true, "nonnil": true, "props": true, "maypanic": true, "params": true,
 	"assert": true, "call": true}
 
@@ -561,6 +578,23 @@ func (cs *ContractSet) ParseFile(path, pkgPath string) error {
 			if cl != nil {
 				cur.Asserts[f[0]] = append(cur.Asserts[f[0]], cl)
 			}
+		case "set", "choose":
+			if cur != nil {
+				sep := ":="
+				if it.kw == "choose" {
+					sep = " with "
+				}
+				k := strings.Index(it.rest, sep)
+				if k < 0 {
+					cs.Errors = append(cs.Errors, fmt.Sprintf("%s:%d: bad ghost update", path, it.n))
+					continue
+				}
+				loc := mkClause(item{it.n, "", strings.TrimSpace(it.rest[:k])}, curProps)
+				ex := mkClause(item{it.n, "", strings.TrimSpace(it.rest[k+len(sep):])}, curProps)
+				if loc != nil && ex != nil {
+					cur.GhostUpd = append(cur.GhostUpd, &GhostUpdate{Choose: it.kw == "choose", Loc: loc, Expr: ex})
+				}
+			}
 		case "sqltext":
 			if cur != nil {
 				t := strings.TrimSpace(it.rest)
@@ -568,6 +602,30 @@ func (cs *ContractSet) ParseFile(path, pkgPath string) error {
 					t = u
 				}
 				cur.SQLTexts = append(cur.SQLTexts, t)
+			}
+		case "definitional":
+			if cur != nil {
+				cur.Definitional = true
+			}
+		case "split":
+			if cur != nil {
+				k := strings.LastIndex(it.rest, " in ")
+				if k < 0 {
+					cs.Errors = append(cs.Errors, fmt.Sprintf("%s:%d: bad split clause", path, it.n))
+					continue
+				}
+				rng := strings.Split(strings.TrimSpace(it.rest[k+4:]), "..")
+				lo, e1 := strconv.Atoi(strings.TrimSpace(rng[0]))
+				hi, e2 := 0, fmt.Errorf("x")
+				if len(rng) == 2 {
+					hi, e2 = strconv.Atoi(strings.TrimSpace(rng[1]))
+				}
+				cl := mkClause(item{it.n, "", strings.TrimSpace(it.rest[:k])}, curProps)
+				if e1 != nil || e2 != nil || cl == nil || hi-lo > 64 {
+					cs.Errors = append(cs.Errors, fmt.Sprintf("%s:%d: bad split clause", path, it.n))
+					continue
+				}
+				cur.Splits = append(cur.Splits, &SplitSpec{Expr: cl, Lo: lo, Hi: hi})
 			}
 		case "inline":
 			if cur != nil {
